@@ -38,7 +38,7 @@ class C02(Prop):
 class C17(Prop):
     id = "C17"
     module = "MioModel.Props.C17"
-    bins = ["dec"]
+    bins = ["dec", "net"]
     run_bin = "dec"
     rule = ("cases = arbitrary byte strings fed to a fresh Decoder in arbitrary chunkings: random bytes, "
             "non-canonical varints, over-long prefixes (9-14 continuation bytes), huge declared lengths, "
@@ -56,6 +56,7 @@ class C17(Prop):
         cmp = getattr(self, "compare", True)
         thorough = tier == "thorough"
         core.tie_run(stats, "dec", ["gen-mal", seed, 400000 if thorough else 30000], self.nontrivial, cmp)
+        core.tie_run(stats, "net", ["gen", seed + 90, 300 if thorough else 36], lambda c, t: "refused" in t or "disconnected" in t, cmp)
 
 
 class C19(Prop):
@@ -208,6 +209,110 @@ class C10(Prop):
         return False
 
 
+NET_TB = [KERNEL, TIE, "model of driver.rs / registry.rs written by hand (MioModel/Net.lean): user calls are atomic steps, process() is split at every lock release and callback",
+          "adapter answers (pending, receive, accept, send status) are inputs of the model; the OS socket layer is the environment",
+          "std::sync::RwLock: mutual exclusion of writers (register/deregister are atomic steps) (assumed)"]
+NET_ASSUME = ["histories are recorded with the processor pumped on the calling thread (a sequence); races between threads are covered by the theorems (every interleaving of the model's atomic steps), not by the tie",
+              "kernel: FIN/RST are reported to a non-blocking read; closing the last descriptor closes the socket", "loopback only"]
+NET_RULE = ("cases = randomized scripted histories over network::split(): listen / connect (own listener, raw listener that "
+            "accepts, stays silent or closes, dead port) / inbound raw peers (proper handshake, garbage bytes, gone at once) / "
+            "peer writes, FIN, RST / send before, during and after establishment / remove (also from inside the callback on "
+            "Connected, Accepted, Message) / is_ready / probes after the end; for Tcp, FramedTcp, Ws and Udp (incl. "
+            "from_listener endpoints and datagrams above the maximum); the recorded history (calls with results + events in "
+            "order) is re-executed on the model, which must produce the same results and accept every event; the direct "
+            "oracle checks the per-endpoint lifecycle, the exactly-one end, the probes and the descriptor baseline. ")
+
+
+class C03(Prop):
+    id = "C03"
+    module = "MioModel.Props.C03"
+    bins = ["net"]
+    run_bin = "net"
+    rule = NET_RULE + "non-trivial = history with a refused connect, a disconnection or a send before establishment (tags refused/disconnected/notavailable); distinct = by history"
+    trusted_base = NET_TB
+    assumptions = NET_ASSUME + ["connect_sync: the polling loop itself is three lines (network.rs:118-131); its two exits are the theorems about is_ready"]
+
+    def nontrivial(self, case, tags):
+        return any(t in tags for t in ("refused", "disconnected", "notavailable"))
+
+    def tie(self, stats, tier, seed):
+        cmp = getattr(self, "compare", True)
+        core.tie_run(stats, "net", ["gen", seed, 400 if tier == "thorough" else 48], self.nontrivial, cmp)
+
+    def search(self, tier, seed):
+        st = core.Stats()
+        core.tie_run(st, "net", ["gen", seed + 1, 160], self.nontrivial, False)
+        return st
+
+    def reexecutable(self, case):
+        return False
+
+
+class C04(C03):
+    id = "C04"
+    module = "MioModel.Props.C04"
+    rule = NET_RULE + ("plus remove races: 8 threads behind a barrier call remove() on each of 2x24 established endpoints "
+                       "(Tcp, FramedTcp, Ws) whose peers are removed at the same time, so the peer's close races the removes; per "
+                       "endpoint remove()=true plus Disconnected must be exactly one. non-trivial = history in which a "
+                       "connection ends by Disconnected or by a successful remove (tags disconnected/removed); distinct = by history")
+
+    def nontrivial(self, case, tags):
+        return "disconnected" in tags or "removed" in tags
+
+    def tie(self, stats, tier, seed):
+        cmp = getattr(self, "compare", True)
+        core.tie_run(stats, "net", ["gen-race", 64 if tier == "thorough" else 24], self.nontrivial, cmp)
+        core.tie_run(stats, "net", ["gen", seed + 20, 400 if tier == "thorough" else 48], self.nontrivial, cmp)
+
+
+class C18(C03):
+    id = "C18"
+    module = "MioModel.Props.C18"
+    rule = NET_RULE + ("the descriptor count is read from /proc/self/fd before the node exists, with the idle node, after every resource "
+                       "of the scenario has ended, and after the node is dropped. non-trivial = history with a refused connect, a "
+                       "disconnection or a removal; distinct = by history")
+    assumptions = NET_ASSUME + ["thread release (stopped nodes) is checked by the node harness of C09"]
+
+    def nontrivial(self, case, tags):
+        return any(t in tags for t in ("refused", "disconnected", "removed"))
+
+    def tie(self, stats, tier, seed):
+        cmp = getattr(self, "compare", True)
+        core.tie_run(stats, "net", ["gen", seed + 40, 600 if tier == "thorough" else 60], self.nontrivial, cmp)
+
+
+class C13(Prop):
+    id = "C13"
+    module = "MioModel.Props.C13"
+    bins = ["net", "stream"]
+    run_bin = "stream"
+    rule = ("cases = (a) payloads around each transport's declared maximum on an established node<->node connection, both "
+            "directions: Udp 65506/65507/65508/70000, Ws 16 MiB+1 (inside the 16 MiB default frame limit of the WS library) and "
+            "32 MiB+1 (thorough: 16 MiB-1, 16 MiB, 32 MiB-1, 32 MiB, 40 MiB), FramedTcp/Tcp 70000 (thorough 40 MiB); status, "
+            "delivery and usability of the connection afterwards compared with the model; (b) scripted histories with sends in "
+            "every resource state (pending, ready, removed, disconnected, never existed via from_listener) re-executed on the "
+            "model. non-trivial = payload at or above a limit, or a send answered ResourceNotAvailable / MaxPacketSizeExceeded "
+            "(tags at-limit/above/notavailable/toobig); distinct = by case line")
+    trusted_base = NET_TB + ["tungstenite frame/message size configuration and the kernel's UDP datagram limit are the environment"]
+    assumptions = NET_ASSUME
+
+    def nontrivial(self, case, tags):
+        return any(t in tags for t in ("at-limit", "above", "notavailable", "toobig"))
+
+    def tie(self, stats, tier, seed):
+        cmp = getattr(self, "compare", True)
+        core.tie_run(stats, "stream", ["gen-sizes", tier], self.nontrivial, cmp)
+        core.tie_run(stats, "net", ["gen", seed + 60, 300 if tier == "thorough" else 40], self.nontrivial, cmp)
+
+    def search(self, tier, seed):
+        st = core.Stats()
+        core.tie_run(st, "stream", ["gen-sizes", "thorough"], self.nontrivial, False)
+        return st
+
+    def reexecutable(self, case):
+        return case.startswith("stream size")
+
+
 CONC_TB = [KERNEL, TIE, "model of events.rs written by hand (MioModel/EventQueueConc.lean): sender calls are single atomic enqueues, the receiver is split at every shared access",
            "crossbeam-channel: linearizable unbounded FIFO channels that never lose or invent an item; select! completes only on a ready operation and prefers ready operations over its timeout (assumed)",
            "the eager receiver schedule built by the driver is replayed through `step`, so it is a legal model execution"]
@@ -305,7 +410,7 @@ class C16(Prop):
 class C14(Prop):
     id = "C14"
     module = "MioModel.Props.C14"
-    bins = ["rid"]
+    bins = ["rid", "net"]
     run_bin = "rid"
     rule = ("cases = structured raw 64-bit values (single bits, complements, field boundaries, random widths) "
             "through ResourceId::from(raw) + accessors + Display and through the poll-token conversions; "
@@ -331,6 +436,7 @@ class C14(Prop):
     def tie(self, stats, tier, seed):
         cmp = getattr(self, "compare", True)
         core.tie_run(stats, "rid", ["gen", seed, 300000 if tier == "thorough" else 20000], self.nontrivial, cmp)
+        core.tie_run(stats, "net", ["gen", seed + 80, 200 if tier == "thorough" else 24], lambda c, t: "removed" in t or "disconnected" in t, cmp)
 
 
-PROPS = {p.id: p() for p in [C01, C02, C06, C07, C08, C10, C11, C14, C16, C17, C19]}
+PROPS = {p.id: p() for p in [C01, C02, C03, C04, C06, C07, C08, C10, C11, C13, C14, C16, C17, C18, C19]}
